@@ -110,9 +110,14 @@ func main() {
 	cold := flag.Bool("cold", false, "C06: cold start - nothing is parsed before the tasks start; one run per process")
 	gstats := flag.Int("genstats", 0, "debug: measure the hit rate of the path generator")
 	mstats := flag.Int("modelstats", 0, "debug: compare the reference model with the library")
+	mpaths := flag.Int("modelpaths", 0, "debug: statistics of the model path generator")
 	flag.Parse()
 	if *mstats > 0 {
 		modelStats(*mstats)
+		return
+	}
+	if *mpaths > 0 {
+		modelPathStats(*mpaths)
 		return
 	}
 	if *gstats > 0 {
